@@ -49,6 +49,15 @@ CHECKS = {
           "error conditions. Compression functions and the Poly1305 limb code are tied to the executable specifications by correspondence on every length 0..1100, adversarial Poly1305 accumulators, all "
           "BLAKE2b key/output lengths, on every backend reachable by CPU masks and build variants (ref/SSSE3/SSE4.1/AVX2, donna64/donna32/SSE2)."),
     note=NOTE_COMMON + "compression/round functions and limb arithmetic are parameters of the theorems (translation-validated, not proved)."),
+ "C08": dict(
+    category="proof", design_ref="DESIGN.md §3.8",
+    technique="Lean 4 theorems over a model of the Argon2 / scrypt front-ends with the cores as parameters (decimal and Base64 field codecs, string encode / decode round trip and strictness, verify = decode + recompute + compare, needs_rehash decision, limit ladders, memory rounding) + differential correspondence against RFC 9106 / RFC 7914 executable specifications on every block-fill backend",
+    text=("The string layer and parameter handling of crypto_pwhash (Argon2i / Argon2id) and crypto_pwhash_scryptsalsa208sha256 are modelled as written; Lean proves for all inputs: the decimal decoder accepts exactly minimal decimals below 2^32, "
+          "encode produces exactly the standard $argon2..$v=19$m=,t=,p=$salt$hash form and decode inverts it, verify returns 0 iff the string decodes and the recomputed tag equals the stored one, needs_rehash is the stated three-way decision "
+          "(with the as-built quirks stated as theorems: lanes ignored, memlimit compared in KiB), the raw functions equal an explicit error ladder followed by the core, and the block count rounding equals RFC 9106's m'. The model is tied to the code by "
+          "running both on raw hashes over all limit boundaries and memory sizes, produced strings, and every mutation class of well-formed strings (6400 ops quick, 29000 thorough) on the AVX-512 / AVX2 / SSSE3 / reference fill code; the cores are the "
+          "executable RFC specifications (translation validation). One known finding: scrypt clamps out-of-range cost parameters instead of rejecting them."),
+    note=NOTE_COMMON + "cores are parameters (TV against the RFC specs); scrypt $7$ round trip on instances only; allocation failure under C20."),
  "C09": dict(
     category="proof", design_ref="DESIGN.md §3.9",
     technique="Lean 4 theorems (one-step push/pull synchronisation, induction over histories of pushes and rekeys, injectivity of the MAC-input encoding, counter/rekey arithmetic) + stateful differential correspondence over random histories with forged pulls",
